@@ -12,7 +12,10 @@ VARIABLE l
 Bad(cond, prop, why) == IF cond THEN {} ELSE {<<prop, why>>}
 
 Fails(ev) ==
-  IF ev.fault # 0 \/ ev.dfault # 0 THEN {<<"C07", "float encode/decode crashed or overran an exact-size buffer">>}
+  IF ev.fault # 0 \/ ev.dfault # 0
+  THEN {<<"C07", "float encode/decode crashed or overran an exact-size buffer">>}
+       \* the destination is exactly varintFloatMaxEncodedSize bytes ending at a guard page
+       \cup (IF ev.fault # 0 THEN {<<"C03", "float encoder wrote beyond a destination of exactly the advertised size">>} ELSE {})
   ELSE Bad(ev.written >= 1 /\ ev.written <= ev.bound, "C03", "float encoder wrote more than varintFloatMaxEncodedSize")
        \cup Bad(ev.consumed = ev.written, "C16", "float decoder consumed a different number of bytes than were written")
        \cup Bad(Len(ev.ys) = Len(ev.xs), "C07", "decoder produced no output")
